@@ -369,6 +369,7 @@ def identity_session(report, backend, save_roles, query_roles, program, keys):
         events = {}                             # step -> event
         accepted = {}                           # id -> event, acknowledged with OK true
         need = {"save": set(save_roles), "query": set(query_roles)}
+        cut_short = False
 
         def verdict(c, action):
             """(allowed by the token, decided?)"""
@@ -518,10 +519,360 @@ def identity_session(report, backend, save_roles, query_roles, program, keys):
                 report.case(("identity-session", backend, save_roles, query_roles) + key, nontrivial=True,
                             sample={"backend": backend, "save": save_roles, "query": query_roles, "step": st})
             report.count("idsess_steps_" + backend)
+            # what waits in a connection's queue after the relay has been given time to settle counts as well: a connection
+            # none of whose REQs was served has no sender task, so whatever is pushed to it stays there.  The relay then never
+            # comes to rest (every further step would wait for the settle time-out), so the program is cut short here
+            unsettled = False
+            for c in (0, 1):
+                q = conns[c]._queue
+                waiting = list(getattr(q, "_queue", ())) if q is not None else []
+                unsettled = unsettled or bool(waiting)
+                bad = [i for i in waiting if isinstance(i, tuple) and i and i[0] in refused[c]]
+                if bad:
+                    report.property_failure(
+                        "%s: %d frame(s) were queued for connection %d under subscription id %r although its last REQ of that id had "
+                        "been refused ('restricted')" % (backend, len(bad), c, bad[0][0]), payload, None)
+            if unsettled or any(x.done for x in everybody):
+                report.count("idsess_programs_cut_short")
+                cut_short = True
+                for c in (0, 1):                # (recorded above; taken away so that closing down does not wait for them)
+                    q = conns[c]._queue
+                    while q is not None and not q.empty():
+                        q.get_nowait()
+                break
         for x in everybody:
             x.close()
+        return not cut_short
     finally:
         relay.close()
+
+
+# ---------------------------------------------------------------------------------------------------------------------
+# integrity of the role store: what clients publish must never act as (or on) a role assignment
+# ---------------------------------------------------------------------------------------------------------------------
+# Where the role assignments live is the backend's business (SQL: a table of its own; LMDB: records in the event store
+# itself).  The property does not care: 'role assignments read back exactly as last set' — set by the operator through
+# set_auth_roles, by nobody else.  So the clients of this family publish, through the ordinary EVENT path, events that
+# are shaped like role records or that name role records (deletions), and the roles are then read back and used.
+STRANGER = "ee" * 32                    # a pubkey nobody holds the key of: only ever a target
+LOOKALIKE_KINDS = [31494, 31494, 30078, 30000, 1, 10000, 0]      # the service kind under the client's own key, and others
+LOOKALIKE_SHAPES = ["d", "d+t+p", "x,d", "d,d"]
+# created_at of the published event relative to 'now' (the operator's assignments are made at 'now'): well before, just
+# before, the same second, just after, well after
+LOOKALIKE_DT = [-86400, -3600, -5, 0, 5, 90, 3600]
+FORGERY_CONFIGS = [("a", "r"), ("aw", "rs"), ("w", "r"), ("rw", "s")]
+
+
+def gen_forgery_program(rng, steps, save_roles, query_roles):
+    """a random symbolic program: the operator assigns roles (to three pubkeys that connect, and to a stranger); clients
+    that may save publish events that look like role records — any kind, their own signature, a d tag 'auth:<pubkey>'
+    naming themselves or somebody else, role letters as content, older and newer than the operator's assignment — and
+    deletion events that name the operator's records; pubkeys log in (NIP-42) and use the relay.
+    The generator keeps a rough picture of who may save (so that most publications are accepted) and of who has been
+    named by a look-alike (so that the logins mostly concern those); the oracle does not use that picture."""
+    assigned = {}
+    named = []
+    prog = []
+
+    def pick_roles():
+        action = set(rng.choice([save_roles, query_roles]))
+        side = rng.random() < 0.5
+        pool = [r for r in ROLE_ALPHABET if bool(set(r.lower()) & action) == side]
+        return rng.choice(pool or ROLE_ALPHABET)
+
+    def assign(k, roles=None):
+        assigned[k] = roles or pick_roles()
+        prog.append({"op": "assign", "k": k, "roles": assigned[k]})
+
+    def via():
+        """through which connection: None = one that never authenticated, k = one freshly authenticated as key k"""
+        can = ([None] if "a" in save_roles else []) + [k for k in range(3) if set(assigned.get(k, "a").lower()) & set(save_roles)]
+        return rng.choice(can) if can and rng.random() < 0.85 else rng.choice([None, 0, 1, 2])
+
+    if "a" not in save_roles:           # somebody must be able to publish at all
+        assign(rng.randrange(3), rng.choice([r for r in ROLE_ALPHABET if set(r.lower()) & set(save_roles)]))
+    for k in rng.sample(range(4), rng.choice([1, 2])):
+        if k not in assigned:
+            assign(k)
+    letters = [x for x in dict.fromkeys([query_roles, save_roles, "arws", "rws", query_roles + save_roles, "z", "a", ""])]
+    while len(prog) < steps:
+        x = rng.random()
+        if x < 0.13:
+            assign(rng.randrange(4))
+        elif x < 0.58:
+            by = rng.randrange(3)
+            target = by if rng.random() < 0.45 else rng.randrange(4)
+            named.append(target)
+            prog.append({"op": "lookalike", "via": via(), "by": by, "target": target, "kind": rng.choice(LOOKALIKE_KINDS),
+                         "shape": rng.choice(LOOKALIKE_SHAPES), "content": rng.choice(letters), "dt": rng.choice(LOOKALIKE_DT)})
+        elif x < 0.66:
+            prog.append({"op": "delete", "via": via(), "by": rng.randrange(3),
+                         "target": rng.choice(list(assigned) if assigned and rng.random() < 0.8 else range(4)),
+                         "dt": rng.choice([5, 90, 3600])})
+        else:
+            pool = [k for k in named if k < 3]
+            prog.append({"op": "login", "k": rng.choice(pool) if pool and rng.random() < 0.7 else rng.randrange(3)})
+    return prog
+
+
+def role_forgery_session(report, backend, save_roles, query_roles, program, keys):
+    """runs one program of gen_forgery_program through the real set_auth_roles / get_auth_roles / get_all_auth_roles and
+    the real start_client.  Oracle = the property: the only thing that assigns roles is the operator's set_auth_roles.
+      after EVERY step, for every pubkey of the scenario: get_auth_roles = the letters the operator last set (the
+          anonymous role if the operator never set any), and get_all_auth_roles lists exactly the operator's
+          assignments — whatever clients have published in between;
+      publication: a connection whose roles (by the operator's assignment) do not meet 'save' gets OK false
+          'restricted' and nothing is stored; one whose roles do is not told 'restricted';
+      login: after a successful AUTH as a pubkey, an EVENT is accepted iff the operator's assignment of that pubkey
+          meets 'save', a REQ is served iff it meets 'query' (else 'restricted', nothing delivered, no subscription)."""
+    import time
+
+    relay = Relay(backend, authentication={"enabled": True, "relay_urls": [URL], "actions": {"save": save_roles, "query": query_roles}})
+    try:
+        targets = [k.public_key.hex() for k in keys] + [STRANGER]
+        service_pk = relay.storage.service_pubkey
+        need = {"save": set(save_roles), "query": set(query_roles)}
+        assigned = {}                    # pubkey -> letters as last set by the operator
+        published = {}                   # pubkey -> descriptions of the accepted client events that name it
+        now = int(time.time())
+        anon = Conn(relay)
+
+        def operator_roles(pk):
+            return set(assigned[pk].lower()) if pk in assigned else set("a")
+
+        def says(pk):
+            return ("the operator last set %r" % assigned[pk]) if pk in assigned else "the operator never assigned it a role"
+
+        def connection(k):
+            """(connection, does it hold a token)"""
+            if k is None:
+                return anon, True
+            c = Conn(relay)
+            n = len(c.out)
+            c.send(["AUTH", auth_answer(relay, keys[k], c.challenge())])
+            return c, not any(isinstance(f, list) and f[0] == "NOTICE" for f in c.frames(n))
+
+        def read_back(payload, after):
+            for pk in targets:
+                got = relay.run(relay.storage.get_auth_roles(pk))
+                report.count("forgery_readbacks_" + backend)
+                if set(got) != operator_roles(pk):
+                    report.property_failure(
+                        "%s: the roles of %s.. read back as %r although %s — %s; client events naming it so far: %s" % (
+                            backend, pk[:6], sorted(got), says(pk), after, "; ".join(published.get(pk, [])[-3:]) or "none"),
+                        payload, None)
+
+            async def everything():
+                return [(p, set(r)) async for p, r in relay.storage.get_all_auth_roles()]
+            listed = relay.run(everything())
+            want = sorted((p, sorted(operator_roles(p))) for p in assigned)
+            if sorted((p, sorted(r)) for p, r in listed) != want:
+                report.property_failure(
+                    "%s: get_all_auth_roles lists %r, the operator's assignments are %r — %s" % (
+                        backend, sorted((p[:6], "".join(sorted(r))) for p, r in listed),
+                        [(p[:6], "".join(r)) for p, r in want], after), payload, None)
+
+        def submit(c, ev):
+            n = len(c.out)
+            c.send(["EVENT", ev])
+            return [f for f in c.frames(n) if isinstance(f, list) and f and f[0] == "OK"]
+
+        for step, st in enumerate(program):
+            op = st["op"]
+            payload = {"case": "role-forgery", "backend": backend, "save": save_roles, "query": query_roles,
+                       "program": program, "step": step}
+            key = None
+            if op == "assign":
+                pk = targets[st["k"]]
+                relay.set_roles(pk, st["roles"])
+                assigned[pk] = st["roles"]
+                after = "after the operator set the roles of %s.. to %r" % (pk[:6], st["roles"])
+                key = (op, bool(published.get(pk)))
+            elif op in ("lookalike", "delete"):
+                sk = keys[st["by"]]
+                target = targets[st["target"]]
+                if op == "lookalike":
+                    d = ["d", "auth:" + target]
+                    tags = {"d": [d], "d+t+p": [d, ["t", "auth"], ["p", target]], "x,d": [["d", "x"], d],
+                            "d,d": [d, ["d", "auth:" + targets[(st["target"] + 1) % 4]]]}[st["shape"]]
+                    ev = relay.signed_event(sk, kind=st["kind"], content=st["content"], tags=tags, created_at=now + st["dt"])
+                    what = "a kind-%d event signed by %s.. with tags %s, content %r, created_at now%+d" % (
+                        st["kind"], ev["pubkey"][:6], [[t[0], t[1][:11] + ".."] if len(t[1]) > 12 else t for t in tags],
+                        st["content"], st["dt"])
+                else:
+                    # a deletion request of a client that names the operator's record of the target: by id where the
+                    # record is an event (LMDB), and by address
+                    recs = relay.store.query([{"kinds": [31494], "authors": [service_pk], "#d": ["auth:" + target]}])
+                    tags = [["e", r.id] for r in recs] + [["a", "31494:%s:auth:%s" % (service_pk, target)]]
+                    ev = relay.signed_event(sk, kind=5, content="", tags=tags, created_at=now + st["dt"])
+                    what = "a deletion request (kind 5) signed by %s.. naming the role record of %s.. (%d by id, 1 by address)" % (
+                        ev["pubkey"][:6], target[:6], len(recs))
+                c, has_token = connection(st["via"])
+                roles = set("a") if st["via"] is None else operator_roles(targets[st["via"]])
+                may_save = bool(roles & need["save"])
+                oks = submit(c, ev) if has_token else []
+                stored = ev["id"] in relay.store.ids()
+                if not has_token:
+                    report.count("forgery_valid_auth_answered_with_notice")          # (C15's business)
+                elif len(oks) != 1:
+                    report.property_failure("%s: %d OK frames for one EVENT" % (backend, len(oks)), payload, None)
+                elif not may_save and (oks[0][2] or "restricted" not in str(oks[0][3])):
+                    report.property_failure("%s: a connection with roles %r (save needs %r) published %s and was answered %r"
+                                            % (backend, sorted(roles), save_roles, what, oks[0][2:]), payload, None)
+                elif may_save and "restricted" in str(oks[0][3]):
+                    report.property_failure("%s: a connection with roles %r (save needs %r) published %s and was told %r"
+                                            % (backend, sorted(roles), save_roles, what, oks[0][3]), payload, None)
+                if st["via"] is not None:
+                    c.close()
+                if stored:
+                    published.setdefault(target, []).append(what)
+                    report.count("forgery_%ss_stored_%s" % (op, backend))
+                after = "after a client published %s (%s)" % (what, "stored" if stored else "not stored")
+                key = (op, st.get("kind"), st.get("shape"), (st["dt"] > 0) - (st["dt"] < 0), st["by"] == st["target"],
+                       target in assigned, st["via"] is None, stored)
+            elif op == "login":
+                pk = targets[st["k"]]
+                roles = operator_roles(pk)
+                c, has_token = connection(st["k"])
+                after = "after %s.. logged in" % pk[:6]
+                if not has_token:
+                    report.count("forgery_valid_auth_answered_with_notice")
+                else:
+                    who = "%s.. (%s; %d stored client events name it) authenticated and" % (pk[:6], says(pk), len(published.get(pk, [])))
+                    ev = relay.signed_event(keys[st["k"]], kind=1, content="login at step %d" % step, created_at=now)
+                    oks = submit(c, ev)
+                    stored = ev["id"] in relay.store.ids()
+                    may_save = bool(roles & need["save"])
+                    if len(oks) != 1 or bool(oks[0][2]) != may_save or stored != may_save:
+                        report.property_failure("%s: %s its EVENT was %s (save needs %r): %r" % (
+                            backend, who, "accepted" if (oks and oks[0][2]) or stored else "refused", save_roles, oks[:1]), payload, None)
+                    elif not may_save and "restricted" not in str(oks[0][3]):
+                        report.property_failure("%s: %s the refusal of its EVENT does not say 'restricted': %r" % (backend, who, oks[0]),
+                                                payload, None)
+                    n = len(c.out)
+                    c.send(["REQ", "q", {"kinds": [1, 5, 31494, 30078]}])
+                    fr = [f for f in c.frames(n) if isinstance(f, list)]
+                    answer = [f for f in fr if f[0] in ("EVENT", "EOSE")]
+                    holds = any(getattr(s, "queue", None) is c._queue for subs in relay.storage.clients.values() for s in subs.values())
+                    may_query = bool(roles & need["query"])
+                    if may_query and not any(f[0] == "EOSE" for f in answer):
+                        report.property_failure("%s: %s its REQ was not served (query needs %r): %r" % (backend, who, query_roles, fr[:3]),
+                                                payload, None)
+                    elif not may_query and (answer or holds):
+                        report.property_failure("%s: %s its REQ was served (query needs %r): %d events%s%s" % (
+                            backend, who, query_roles, sum(1 for f in answer if f[0] == "EVENT"),
+                            ", EOSE" if any(f[0] == "EOSE" for f in answer) else "", ", holds a subscription" if holds else ""),
+                            payload, None)
+                    elif not may_query and not any(f[0] == "NOTICE" and "restricted" in str(f[1]) for f in fr):
+                        report.property_failure("%s: %s its refused REQ was not answered with a 'restricted' NOTICE: %r" % (backend, who, fr),
+                                                payload, None)
+                    report.count("forgery_logins_" + backend)
+                    key = (op, pk in assigned, bool(published.get(pk)), may_save, may_query)
+                c.close()
+            read_back(payload, after)
+            if key is not None:
+                report.case(("role-forgery", backend, save_roles, query_roles) + key, nontrivial=True,
+                            sample={"backend": backend, "save": save_roles, "query": query_roles, "step": st})
+            report.count("forgery_steps_" + backend)
+        anon.close()
+    finally:
+        relay.close()
+
+
+# ---------------------------------------------------------------------------------------------------------------------
+# the HTTP read path: GET /e/<id>
+# ---------------------------------------------------------------------------------------------------------------------
+HTTP_QUERY_ROLES = ["a", "r", "rw", "arws", "", [], None]        # None = 'query' not configured at all
+
+
+def http_read_case(report, backend, enabled, query_roles, with_validator, keys):
+    """GET /e/<id> (web.ViewEventResource, through falcon's ASGI test conductor) is a read path like REQ.  An HTTP client
+    holds no token, i.e. it has the default (anonymous) role.  Oracle, stated over the configuration and the stored event:
+      the response carries the event  iff  the event is stored
+                                       and (authentication is disabled or 'query' is not configured or 'a' is one of its roles)
+                                       and (no output validator is configured or it lets the event through — for the
+                                            homeserver recipe: author whitelisted, or kind 10002);
+      otherwise the response is not a 200 and nothing of the event is in its body.
+    The same oracle judges a REQ for the same ids of a websocket connection that never authenticated."""
+    import json
+    import falcon.asgi
+    import falcon.testing
+    from nostr_relay import web
+    from nostr_relay.config import Config
+
+    w, x = keys[0], keys[1]
+    Config.pubkey_whitelist = [w.public_key.hex()]
+    actions = {"save": "a"}
+    if query_roles is not None:
+        actions["query"] = query_roles
+    relay = Relay(backend, authentication={"enabled": enabled, "relay_urls": [URL], "actions": actions},
+                  output_validator="nostr_relay.recipe.homeserver.whitelist_output_validator" if with_validator else None)
+    try:
+        payload = {"case": "http", "backend": backend, "enabled": enabled, "query": query_roles, "validator": with_validator}
+        evs = [relay.signed_event(w, kind=1, content="note by the whitelisted author"),
+               relay.signed_event(w, kind=30000, content="list by the whitelisted author", tags=[["d", "x"]]),
+               relay.signed_event(x, kind=1, content="note by an outsider"),
+               relay.signed_event(x, kind=10002, content="relay list of an outsider", tags=[["r", "wss://example.com"]])]
+        for ev in evs:
+            relay.store.add(ev)
+        stored = relay.store.ids()
+        never = relay.signed_event(x, kind=1, content="never submitted")
+        app = falcon.asgi.App()
+        app.add_route("/e/{event_id}", web.ViewEventResource(relay.storage))
+
+        async def get(event_id):
+            async with falcon.testing.ASGIConductor(app) as c:
+                r = await c.simulate_get("/e/%s" % event_id)
+                return r.status_code, r.text or ""
+
+        may_query = (not enabled) or query_roles is None or bool(set("a") & set(query_roles))
+        config = "authentication %s, query %s, %s output validator" % (
+            "enabled" if enabled else "disabled", "not configured" if query_roles is None else "needs %r" % (query_roles,),
+            "the homeserver" if with_validator else "no")
+        visible = set()
+        for ev in evs + [never]:
+            passes = (not with_validator) or ev["pubkey"] in Config.pubkey_whitelist or ev["kind"] == 10002
+            want = ev["id"] in stored and may_query and passes
+            if want:
+                visible.add(ev["id"])
+            status, text = relay.run(get(ev["id"]))
+            body = None
+            if status == 200:
+                try:
+                    body = json.loads(text)
+                except Exception:
+                    body = text
+            leaked = status == 200 or ev["id"] in text or ev["sig"] in text or ev["content"] in text
+            what = "kind-%d event %r" % (ev["kind"], ev["content"])
+            if want and not (isinstance(body, dict) and body.get("id") == ev["id"] and body.get("sig") == ev["sig"]):
+                report.property_failure("%s: GET /e/<id> of the stored %s (%s) did not return it: %d %r"
+                                        % (backend, what, config, status, text[:80]), payload, None)
+            elif not want and leaked:
+                report.property_failure(
+                    "%s: GET /e/<id> served the %s to an HTTP client (no token = the anonymous role) although %s: %d %r" % (
+                        backend, what, "it was never stored" if ev["id"] not in stored else
+                        ("%s" % config if not may_query else "the output validator hides it (%s)" % config), status, text[:80]),
+                    payload, None)
+            report.count("http_%d_%s" % (status, backend))
+            report.case(("http", backend, enabled, repr(query_roles), with_validator, ev["kind"], ev["pubkey"] == evs[0]["pubkey"],
+                         ev["id"] in stored), nontrivial=not want,
+                        sample={**payload, "kind": ev["kind"], "status": status, "served": status == 200})
+        # the websocket REQ of a connection that never authenticated, for the same ids
+        c = Conn(relay)
+        n = len(c.out)
+        c.send(["REQ", "byid", {"ids": [e["id"] for e in evs + [never]]}])
+        fr = [f for f in c.frames(n) if isinstance(f, list)]
+        got = {f[2]["id"] for f in fr if f[0] == "EVENT"}
+        if got != visible or (may_query and not any(f[0] == "EOSE" for f in fr)):
+            report.property_failure("%s: a REQ by ids of an unauthenticated connection (%s) delivered %d events, %d are visible to it: %r"
+                                    % (backend, config, len(got), len(visible), [f[:2] for f in fr][:4]), payload, None)
+        c.close()
+        report.case(("http-ws", backend, enabled, repr(query_roles), with_validator), nontrivial=not may_query or with_validator,
+                    sample={**payload, "ws_events": len(got)})
+        report.count("http_configs_" + backend)
+    finally:
+        relay.close()
+        Config.pubkey_whitelist = None
 
 
 def run(report, tier, seed):
@@ -543,6 +894,17 @@ def run(report, tier, seed):
         "in storage, and that re-use what they hold — REQ over a pool of two subscription ids (so mostly an id that is open), "
         "re-submission of earlier events, replacements — with third-party publications in between; every REQ / EVENT judged by "
         "the roles of the token held at that moment, and nothing may arrive under an id whose REQ was refused; "
+        "integrity of the role store: random programs in which the operator assigns roles while clients that may save publish "
+        "events shaped like role records (kinds {31494, 30078, 30000, 1, 10000, 0} under their own key, d tag auth:<pubkey> "
+        "naming themselves / others / a stranger, role letters as content, created_at from a day before to an hour after the "
+        "assignment, four tag shapes) and deletion requests naming the operator's records (by id and by address); after every "
+        "step get_auth_roles of every pubkey and get_all_auth_roles must equal the operator's last assignments, and after a "
+        "NIP-42 login EVENT / REQ are judged by the operator's assignment; "
+        "the HTTP read path GET /e/<id> (falcon ASGI conductor) over authentication enabled / disabled x query roles "
+        "{a, r, rw, arws, '', [], not configured} x homeserver output validator present / absent, four stored events (whitelisted "
+        "author / outsider, kinds 1, 30000, 10002) and one never stored: served iff stored and the anonymous role may query and "
+        "the validator lets it through, else no 200 and nothing of the event in the body; the same for a REQ by ids of an "
+        "unauthenticated connection; "
         "non-trivial = something must be refused")
     report.assumptions += ["identities are established with real NIP-42 answers; the per-object hook evaluate_target is the shipped no-op"]
     try:
@@ -566,6 +928,17 @@ def run(report, tier, seed):
                 if tier != "quick" or n % 4 == 1:
                     path_case(report, backend, s, q, i, keys, kind=30000)
             output_validator_case(report, backend, keys)
+            # the HTTP read path over enabled x query roles (also empty / not configured) x output validator present or not.
+            # quick: every query configuration with authentication enabled (the validator alternating, its phase drawn
+            # from the seed) and two with authentication disabled; thorough: the full matrix
+            if tier == "quick":
+                ph = rng.randrange(2)
+                http_cases = [(True, q, (n + ph) % 2 == 0) for n, q in enumerate(HTTP_QUERY_ROLES)] + \
+                             [(False, "r", ph == 0), (False, "", ph == 1)]
+            else:
+                http_cases = [(e, q, v) for e in (True, False) for q in HTTP_QUERY_ROLES for v in (False, True)]
+            for e, q, v in http_cases:
+                http_read_case(report, backend, e, q, v, keys)
             roles_roundtrip(report, backend, rng, keys)
             for _ in range(2 if tier == "quick" else 12):
                 role_change_case(report, backend, rng, keys)
@@ -575,9 +948,24 @@ def run(report, tier, seed):
             # (the counters idsess_* in the evidence say how many there were)
             pks = [k.public_key.hex() for k in keys]
             n_prog, n_steps = (6, 48) if tier == "quick" else (40, 60)
+            cut = 0
             for i in range(n_prog):
                 s, q = IDSESS_CONFIGS[i % len(IDSESS_CONFIGS)] if i < len(IDSESS_CONFIGS) else rng.choice(IDSESS_CONFIGS)
-                identity_session(report, backend, s, q, gen_identity_program(rng, pks, n_steps, s, q), keys)
+                prog = gen_identity_program(rng, pks, n_steps, s, q)        # (always drawn: the rng stream does not depend on outcomes)
+                # a program that had to be cut short (the relay no longer comes to rest) costs a settle time-out; after two of
+                # them the rest is skipped for this backend (idsess_programs_cut_short / _skipped in the evidence; 0 normally)
+                if cut >= 2:
+                    report.count("idsess_programs_skipped")
+                elif not identity_session(report, backend, s, q, prog, keys):
+                    cut += 1
+            # the role store against what clients publish.  Both backends, whatever their representation of an assignment;
+            # every configuration of FORGERY_CONFIGS once (they differ in who may publish: anybody, or only pubkeys the
+            # operator gave a role to), ~45 % of the steps are look-alike publications, ~1/3 logins, and everything is read
+            # back after every step (the counters forgery_* in the evidence say how many were stored / read / used)
+            n_prog, n_steps = (len(FORGERY_CONFIGS), 28) if tier == "quick" else (24, 60)
+            for i in range(n_prog):
+                s, q = FORGERY_CONFIGS[i % len(FORGERY_CONFIGS)]
+                role_forgery_session(report, backend, s, q, gen_forgery_program(rng, n_steps, s, q), keys)
     finally:
         drv.close()
 
@@ -595,7 +983,11 @@ def replay(report, path):
     try:
         for it in (data.get("violations") or []):
             r = it.get("replay") or {}
-            if r.get("case") == "identity-session":
+            if r.get("case") == "http":
+                http_read_case(report, r["backend"], r["enabled"], r["query"], r["validator"], keys)
+            elif r.get("case") == "role-forgery":
+                role_forgery_session(report, r["backend"], r["save"], r["query"], r["program"], keys)
+            elif r.get("case") == "identity-session":
                 identity_session(report, r["backend"], r["save"], r["query"], r["program"], keys)
             elif "save" in r:
                 path_case(report, r["backend"], r["save"], r["query"], r["identity"], keys, kind=r.get("kind", 1))
